@@ -155,8 +155,11 @@ pub fn explore(spec: &DfsSpec, judge_flags: &dyn Fn(&Scn, &Outcome) -> bool) -> 
         let mut scn = spec.scn.clone();
         scn.sched = Sched::Explicit(o.applied_faults());
         if judge_flags(&scn, &o) {
-            if st.flagged.len() < 6 {
-                st.flagged.push((scn, o));
+            st.flagged.push((scn, o));
+            if st.flagged.len() >= 6 {
+                // the variant already fails: no point in enumerating the rest
+                st.truncated = true;
+                break;
             }
         } else {
             st.complete_ok += 1;
